@@ -4,6 +4,7 @@ import json, sys
 pid = sys.argv[1]
 wt = sys.argv[2]
 out = sys.argv[3]
+round2 = len(sys.argv) > 4 and sys.argv[4] == 'round2'
 p = None
 for l in open('/verif/properties.jsonl'):
     d = json.loads(l)
@@ -28,7 +29,9 @@ YOUR TASK: produce TWO different, independent, realistic source changes to track
   (b) the change BREAKS the property above, but only in a way that needs something specific to manifest: an unusual input (a tie, a border value, a zero, a particular size, a particular date...), a multi-step sequence of operations, or two cooperating code sites that each look fine alone. Do NOT make changes that ordinary use would expose at once (e.g. always returning a wrong value).
   (c) you provide a small demonstration program (plain python script, exit code 1 + message when the property is violated, exit 0 otherwise) that FAILS with your change applied and PASSES on the unchanged tree. The demo must import tracklib from the worktree (run as `cd {wt} && PYTHONPATH={wt} /venv/bin/python -W ignore demo.py`).
 
-The two changes should be in different places / of different nature (e.g. one about a comparison or boundary, one about a different sub-claim of the statement). Keep each change to a few lines.
+The two changes should be in different places / of different nature (e.g. one about a comparison or boundary, one about a different sub-claim of the statement). Keep each change to a few lines.""" + ("""
+
+This is a SECOND round: an earlier round already produced the most obvious candidates (a flipped comparison or an off-by-one in the central loop of the main function, a dropped special case). Look elsewhere: helper functions and wrappers the main function relies on, argument / default handling, less-travelled branches and modes named in the statement, sub-claims of the statement that are easy to forget (frame conditions such as 'nothing else changes', symmetry, 'the same when called twice', behaviour at size 0/1/2, ties, NaN, borders), or a change split over two cooperating sites. Each change must still be something a developer could plausibly write.""" if round2 else "") + f"""
 
 DELIVERABLES (write them under {out}/, create the directory):
   {out}/A/patch.diff   (output of `git -C {wt} diff` for change A alone, relative to the unchanged HEAD)
